@@ -1,17 +1,17 @@
 """C10 — see harness/props/dev_ctl.py (event level, shared with the other control-endpoint properties) and
 harness/props/c07_cyc.py (cycle level, run through `extra_checks`)."""
 from harness.common import framework
-from harness.props import dev_ctl, c07_cyc
+from harness.props import dev_ctl, c07_cyc, c07
 
 PROP = "C10"
-LEAN_MODULES = ["LunaVerif.Props.C10"] + dev_ctl.CYC_MODULES
+LEAN_MODULES = ["LunaVerif.Props.C10"] + dev_ctl.CYC_MODULES + c07.STREAM_MODULES
 DRIVER = dev_ctl.DRIVER
 REQUIRED_THEOREMS = ["unsupported_never_answered", "unsupported_first_request_stalled", "unsupported_setup_establishes_handling", "handling_step",
                      "unhandled_stalls", "unhandled_waits_silently", "unclaimed_request_stalls", "cycle_refines_event",
                      "cycle_refines_event_run"]
 RULE = dev_ctl.RULE + dev_ctl.CYC_RULE
 ASSUMPTIONS = dev_ctl.ASSUMPTIONS
-PARTIAL = dev_ctl.PARTIAL["C10"]
+PARTIAL = c07.PARTIAL_STREAMS + dev_ctl.PARTIAL["C10"][len(dev_ctl.PARTIAL_COMMON):]
 
 
 def gen_cases(tier, rng):
